@@ -1,3 +1,5 @@
 import KcpVerif.Generated
 import KcpVerif.Model.Ring
 import KcpVerif.Props.C20
+import KcpVerif.Model.Sched
+import KcpVerif.Props.C17
